@@ -1234,6 +1234,8 @@ class Interp:
                 return False
             if e.kind != f.kind:
                 return False
+            if e.__class__ is DictViewE:
+                continue  # derived data: recomputed from its dictionary at every access (St.get)
             if e.kind in ("list", "deque", "set", "numset"):
                 if len(e.items) != len(f.items) or any(x is not y for x, y in zip(e.items, f.items)):
                     return False
@@ -1583,6 +1585,41 @@ class Interp:
                 st1.store[r.id] = e
             yield st1, r
 
+    def _still_initial(self, frozen, v, st):
+        """the value v (in st) is what thaw(frozen) produces: same shape, same leaves"""
+        if isinstance(frozen, FrozenList):
+            e = st.get(v) if isinstance(v, Ref) else None
+            return e is not None and e.kind == "list" and len(e.items) == len(frozen.items) and all(
+                self._still_initial(f, x, st) for f, x in zip(frozen.items, e.items))
+        if isinstance(frozen, FrozenDict):
+            e = st.get(v) if isinstance(v, Ref) else None
+            if e is None or e.kind != "dict" or len(e.items) != len(frozen.items):
+                return False
+            for (fk, fv), (k2, v2) in zip(frozen.items.items(), e.items.items()):
+                if isinstance(fk, (FrozenObj, FrozenList, FrozenDict, FrozenNd)):
+                    if not self._still_initial(fk, k2, st):
+                        return False
+                elif fk is not k2 and fk != k2:
+                    return False
+                if not self._still_initial(fv, v2, st):
+                    return False
+            return True
+        if isinstance(frozen, FrozenNd):
+            e = st.get(v) if isinstance(v, Ref) else None
+            return e is not None and e.kind == "nd" and tuple(e.shape) == tuple(frozen.shape) and all(
+                self._still_initial(f, x, st) for f, x in zip(frozen.data, e.data))
+        if isinstance(frozen, frozenset):
+            e = st.get(v) if isinstance(v, Ref) else None
+            return e is not None and e.kind == "set" and len(e.items) == len(frozen) and all(x in frozen for x in e.items)
+        if isinstance(frozen, FrozenObj):
+            e = st.get(v) if isinstance(v, Ref) else None
+            return e is not None and e.kind == "obj" and e.attrs.keys() == frozen.attrs.keys() and all(
+                self._still_initial(frozen.attrs[k], e.attrs[k], st) for k in frozen.attrs)
+        if type(frozen) is tuple:
+            return type(v) is tuple and len(v) == len(frozen) and all(self._still_initial(f, x, st) for f, x in zip(frozen, v))
+        return frozen is v or (type(frozen) is type(v) and isinstance(v, (int, str, bool, Fraction, type(None))) and frozen == v) or (
+            not isinstance(v, Ref) and not isinstance(frozen, (FrozenList, FrozenDict, FrozenNd, FrozenObj)) and frozen is v)
+
     def _unchanged(self, before, after):
         """nothing that existed in `before` differs in `after`: store entries, abstract heap, module globals rebound on the
         path, variables of every frame (new store entries and new variables of the top frame are allowed)"""
@@ -1590,6 +1627,12 @@ class Interp:
             return False
         for k, v in after.ghost.items():
             if isinstance(k, tuple) and k and k[0] == "modglobal" and before.ghost.get(k, self) is not v:
+                if len(k) == 2 and k not in before.ghost:
+                    # a module- / class-level container read for the first time on this path (thaw_global materialises it
+                    # lazily): no change as long as it still has its initial contents
+                    init = next((g for g in self._global_keep if id(g) == k[1]), None)
+                    if init is not None and self._still_initial(init, v, after):
+                        continue
                 return False
         if len(before.frames) != len(after.frames):
             return False
@@ -1711,7 +1754,8 @@ class Interp:
                         if before is not None and (isinstance(r, Exc) or not self._unchanged(before, st4)):
                             raise Unsupported("a lazy iterator (map / filter / zip / generator function ...) whose items raise or change "
                                               "existing state when computed is evaluated eagerly only as the direct argument of "
-                                              "list / tuple / sum / sorted / set / dict / min / max / join")
+                                              "list / tuple / sum / sorted / set / dict / min / max / join"
+                                              + (" [raises %s]" % r.exc.name if isinstance(r, Exc) else ""))
                         if isinstance(r, Ref) and type(st4.get(r)) is ListE:
                             st4.store[r.id] = IterE(st4.get(r).items)  # an iterator object, not a list
                         yield st4, r
